@@ -346,10 +346,11 @@ where
                     }
                     "display" => {
                         let (s1, s2) = F::w_display(x);
-                        c.wr.raw(",\"s\":");
-                        c.wr.bytes(&s1);
-                        c.wr.raw(",\"t\":");
-                        c.wr.bytes(&s2);
+                        for (key, list) in [(",\"s\":[", &s1), ("],\"t\":[", &s2)] {
+                            c.wr.raw(key);
+                            for (i, b) in list.iter().enumerate() { if i > 0 { c.wr.raw(","); } c.wr.bytes(b); }
+                        }
+                        c.wr.raw("]");
                     }
                     "is_pow2" | "is_neg" => {
                         let o = if op == "is_pow2" { F::w_is_pow2(x) } else { F::w_is_neg(x) };
